@@ -1,6 +1,20 @@
 (* C01 — Equality is sound: no equality is reported that the input does not imply.
-   The e-graph algorithm itself is not proved sound here (C01_full is stated, not proved).
-   What IS proved are the three certificate principles with which every equality the implementation
+   SECOND SESSION - soundness of the e-graph MODEL itself (EGraph/Sound*.v, KidsCov.v, KeyInv.v; about 15 000 lines):
+   the invariant `Sound E s` (every union-find edge, every stored e-node and every member of every class group
+   relates terms that are Deriv-equal from the asserted equations E, under all compatible renamings) holds in
+   the empty e-graph and is preserved by insertion, by union (move_to, shrink_slots, group extension) and by the
+   whole of rebuild (re-canonicalisation, upward shrink, self-symmetries, re-adding), with ONE exception: the
+   hash-cons-hit step (handle_congruence -> pc_congruence) composes the bijections of two separately computed weak
+   shapes without comparing the shapes; that they are equal at every call in a reachable state is reduced to a key
+   invariant whose preservation is not proved (KeyInv.v).  Hence two end-to-end theorems at the end of this file:
+     C01_model_sound_modulo_congruence : sound for ALL histories, given that one step (stated as its only premise);
+     C01_model_sound_certified         : sound, with NO semantic premise, for every history on which the GUARDED model
+                                         run succeeds (the guard compares the two weak shapes at each hash-cons hit and
+                                         the guarded functions refine the real ones) - an executable premise that the
+                                         correspondence evaluates on every explored history (stream `certified`).
+   Together with the per-run agreement of the implementation's equality matrix with the model's this covers the
+   implementation on every explored history; for unexplored histories the tie model = implementation is the gap.
+   ALSO proved are the three certificate principles with which every equality the implementation
    reports is judged on every run:
    (1) an equality confirmed by the bounded closure is implied (C01_confirmed_by_closure),
    (2) an equality whose explanation the checker accepts is implied (C01_confirmed_by_explanation),
@@ -26,3 +40,26 @@ Print Assumptions C01_refuted_by_model.
 Definition C01_full : Prop :=
   forall (eq_reported : equations -> cterm -> cterm -> bool) E s t,
     eq_reported E s t = true -> Deriv E 0 s t.
+
+(* ---------- soundness of the e-graph model ---------- *)
+From SE Require Import EGraph.Model EGraph.ModelMachine EGraph.SoundFacts EGraph.SoundAddExpr EGraph.SoundPending
+  EGraph.SoundReadd EGraph.SoundFinal EGraph.SoundMachine.
+
+Theorem C01_model_sound_modulo_congruence : spec_HC_sim_x syn_cov ->
+  forall terms ops hs s i j a b ti tj,
+  List.Forall rt_ok terms -> List.Forall rt_wf terms ->
+  run_ops terms ops [] empty_egraph = Ok (hs, s) ->
+  nth_opt hs i = Some a -> nth_opt hs j = Some b ->
+  nth_opt (handle_cterms terms ops) i = Some ti -> nth_opt (handle_cterms terms ops) j = Some tj ->
+  eg_eq s a b = Ok true -> Deriv (asserted terms ops) 0 ti tj.
+Proof. exact equality_sound_modulo_congruence. Qed.
+Print Assumptions C01_model_sound_modulo_congruence.
+
+Theorem C01_model_sound_certified : forall terms ops hs s i j a b ti tj,
+  sound_premises terms ops = true ->
+  run_ops terms ops [] empty_egraph = Ok (hs, s) ->
+  nth_opt hs i = Some a -> nth_opt hs j = Some b ->
+  nth_opt (handle_cterms terms ops) i = Some ti -> nth_opt (handle_cterms terms ops) j = Some tj ->
+  eg_eq s a b = Ok true -> Deriv (asserted terms ops) 0 ti tj.
+Proof. exact equality_sound_certified. Qed.
+Print Assumptions C01_model_sound_certified.
